@@ -190,6 +190,52 @@ def main():
                 print(json.dumps({"reproduced": True, "tried": tried, "detail": f"Resampler.run({scheme!r}) after the state's history was replaced through update_from_dict "
                                   f"({n_a} -> {n_b} iterations of 6 particles): {err}", "input": {"scheme": scheme, "iterations": [n_a, n_b]}}))
                 return
+    # exactly equal weights over a pool of several generations (a flat likelihood): still unbiased - E[copies of particle i] = n / N for
+    # every particle of every generation (systematic: exact over the offset partition; multinomial: 400 seeded draws, 6 sigma)
+    for scheme in ("syst", "mult"):
+        st0 = StateManager(2)
+        r8 = np.random.RandomState(18)
+        gens, m = 3, 8
+        for t in range(gens):
+            uu = r8.uniform(0, 1, (m, 2))
+            st0.update_current({"u": uu, "x": uu * 2, "logl": np.zeros(m), "beta": 0.2 * t, "logz": 0.0, "iter": t, "calls": 0, "assignments": np.zeros(m, dtype=int)})
+            st0.commit_current_to_history()
+        uh = np.concatenate([np.asarray(a) for a in st0._history["u"]])
+        N = gens * m
+        w = np.full(N, 1.0 / N)
+        counts = np.zeros(N)
+        reps = 0
+        offsets = [(k + 0.5) / 48.0 for k in range(48)] if scheme == "syst" else list(range(400))
+        for o in offsets:
+            st = StateManager.from_dict(st0.to_dict())
+            st.set_current("beta", 0.5)
+            if scheme == "syst":
+                np.random.random = lambda *a, **k: (np.full(a[0], o) if a else o)
+                np.random.rand = lambda *a: (np.full(a, o) if a else o)
+                np.random.random_sample = lambda size=None: (np.full(size, o) if size is not None else o)
+                np.random.uniform = lambda low=0.0, high=1.0, size=None: (np.full(size, low + (high - low) * o) if size is not None else low + (high - low) * o)
+            else:
+                np.random.seed(1000 + o)
+            try:
+                Resampler(st, m, scheme, None, False, False).run(w.copy())
+                u = st.get_current("u")
+            except Exception as e:
+                print(json.dumps({"reproduced": True, "tried": tried, "detail": f"Resampler.run({scheme!r}) with exactly uniform weights raised {type(e).__name__}: {e}", "input": {"scheme": scheme}}))
+                return
+            finally:
+                np.random.random, np.random.rand = o_random, o_rand
+                np.random.random_sample, np.random.uniform = o_rs, o_uni
+            idx = np.array([int(np.argmin(np.abs(uh - row).sum(axis=1))) for row in u])
+            counts += np.bincount(idx, minlength=N)
+            reps += 1
+        tried += 1
+        mean = counts / reps
+        tol = 1e-9 if scheme == "syst" else 6 * np.sqrt((m / N) * (1 - 1.0 / N) / reps)
+        if np.abs(mean - m / N).max() > tol:
+            i = int(np.argmax(np.abs(mean - m / N)))
+            print(json.dumps({"reproduced": True, "tried": tried, "detail": f"Resampler.run({scheme!r}) with exactly equal weights over {gens} generations of {m} particles is biased: "
+                              f"E[copies of particle {i} (generation {i // m})] = {mean[i]:.4f}, n*w_i = {m / N:.4f}", "input": {"scheme": scheme, "generations": gens, "m": m}}))
+            return
     # posterior(resample=True) at the extreme offsets (history whose normalised weights have a cumulative sum ending below 1)
     import tempest, tempfile, os, shutil
     tmpd = tempfile.mkdtemp(prefix="c06_")
